@@ -496,7 +496,10 @@ class Repo:
                 lo = f(expr.slice.lower) if expr.slice.lower else None
                 hi = f(expr.slice.upper) if expr.slice.upper else None
                 st = f(expr.slice.step) if expr.slice.step else None
-                return base[lo:hi:st]
+                try:
+                    return base[lo:hi:st]
+                except Exception as e:
+                    raise NotConst(str(e))
             try:
                 return base[f(expr.slice)]
             except Exception as e:
